@@ -730,25 +730,21 @@ func ruleR55(c *Ctx) {
 			continue
 		}
 		in := info(f)
-		inspectNoLit(f.Body, func(n ast.Node) bool {
-			cc, ok := n.(*ast.CaseClause)
-			if !ok || len(cc.List) == 0 || len(cc.Body) == 0 {
-				return true
-			}
-			isRetry := false
-			for _, e := range cc.List {
-				if cst, ok := objOf(in, e).(*types.Const); ok && cst.Name() == "RetryMode" {
-					isRetry = true
+		var retryArms []enumBranch
+		for _, arms := range enumDispatches(p, in, f.Body, pathBpmn, "ErrHandleMode") {
+			for _, a := range arms {
+				if a.Name == "RetryMode" && len(a.Body) > 0 {
+					retryArms = append(retryArms, a)
 				}
 			}
-			if !isRetry {
-				return true
-			}
+		}
+		for _, arm := range retryArms {
+			ccBody := arm.Body
 			g := p.Graph(f)
-			region := regionOfStmts(cc.Body)
-			entry, ok := g.EntryOfStmts(cc.Body)
+			region := regionOfStmts(ccBody)
+			entry, ok := g.EntryOfStmts(ccBody)
 			if !ok {
-				return true
+				continue
 			}
 			isCallTo := func(n ast.Node, name string, argPred func(*ast.CallExpr) bool) bool {
 				return exprMentions(n, func(z ast.Node) bool {
@@ -780,7 +776,7 @@ func ruleR55(c *Ctx) {
 			}
 			// decision points
 			var decisions []ast.Node
-			for _, st := range cc.Body {
+			for _, st := range ccBody {
 				inspectNoLit(st, func(z ast.Node) bool {
 					if call, ok := z.(*ast.CallExpr); ok && isCallTo(call, "IsContinue", nil) {
 						decisions = append(decisions, call)
@@ -861,8 +857,7 @@ func ruleR55(c *Ctx) {
 					"every further attempt is counted (Step) before the task is awaited again; otherwise a failing task is retried without bound",
 					ifElse(len(bad) == 0, "every path of the retry branch passes Step()", "a path of the retry branch leaves without Step()"))
 			}
-			return true
-		})
+		}
 	}
 	if found == 0 {
 		c.Missing("retry decision", "no IsContinue call inside a RetryMode clause was found")
@@ -2797,19 +2792,31 @@ func init() {
 
 // acceptedDrops: enclosing function -> callee -> reason (each confirmed by reading the code).
 var acceptedDrops = map[string]map[string]string{
+	// keyed by the enclosing declared function, or by "type:<pkg>.<Type>" for every method of that type (so that
+	// extracting a helper method does not move a confirmed site out of the table)
 	"bpmn.FetchTaskTimeout":            {"ParseDuration": "a malformed timeout attribute means 'no timeout' (0), the documented default"},
 	"pkg/clock.changeMonitor":          {"Close": "closing the timerfd on the way out; nothing to do about a failure"},
-	"pkg/clock.(*host).changeMonitor":  {"Close": "closing the timerfd on the way out; nothing to do about a failure"},
-	"bpmn.(*ProcessSet).tracerProcess": {"ConsumeEvent": "the outcome of delivering a thrown event to a sibling process is visible in that process's traces"},
-	"bpmn.(*ProcessSet).triggerCatch":  {"ConsumeEvent": "as tracerProcess"},
-	"schema.(*Value).ValueFor": {"Unmarshal": "an undecodable stored text yields the empty container (R67 requires it to be non-nil)",
-		"ParseInt": "the text was validated when it was stored (ValueFrom only stores text that parses)", "ParseFloat": "the text was validated when it was stored (ValueFrom only stores text that parses)"},
-	"schema.(*TaskDefinition).GetMetadatas": {"Unmarshal": "an undecodable metadata attribute yields the empty map"},
-	"schema.(*TaskDefinition).SetMetadata": {"Unmarshal": "as GetMetadatas: undecodable existing metadata is replaced",
-		"Marshal": "setter without an error result; metadata values are JSON-representable by contract"},
-	"schema.(*TaskDefinition).SetMetadatas": {"Marshal": "setter without an error result; metadata values are JSON-representable by contract"},
-	"pkg/logic.NewCatchEventSatisfier":      {"NewEventDefinitionInstance": "KNOWN FINDING Rerr: listed there, not accepted here"},
-	"pkg/logic.NewThrowEventSatisfier":      {"NewEventDefinitionInstance": "KNOWN FINDING Rerr: listed there, not accepted here"},
+	"type:pkg/clock.host":              {"Close": "closing the timerfd on the way out; nothing to do about a failure"},
+	"type:bpmn.ProcessSet":             {"ConsumeEvent": "the outcome of delivering a thrown event to a sibling process (or of waking a registered catch event) is visible in that process's traces"},
+	"type:schema.Value":                {"Unmarshal": "an undecodable stored text yields the empty container (R67 requires it to be non-nil)", "ParseInt": "the text was validated when it was stored (ValueFrom only stores text that parses)", "ParseFloat": "the text was validated when it was stored (ValueFrom only stores text that parses)"},
+	"type:schema.TaskDefinition":       {"Unmarshal": "an undecodable metadata attribute yields the empty map / is replaced", "Marshal": "setter without an error result; metadata values are JSON-representable by contract"},
+	"pkg/logic.NewCatchEventSatisfier": {"NewEventDefinitionInstance": "KNOWN FINDING Rerr: listed there, not accepted here"},
+	"pkg/logic.NewThrowEventSatisfier": {"NewEventDefinitionInstance": "KNOWN FINDING Rerr: listed there, not accepted here"},
+}
+
+func acceptedDrop(f *FuncInfo, calleeName string) (string, bool) {
+	root := f.Root()
+	if r, ok := acceptedDrops[root.QName()][calleeName]; ok {
+		return r, true
+	}
+	if root.Obj != nil {
+		if rn := recvNamed(root.Obj); rn != nil {
+			if r, ok := acceptedDrops["type:"+shortPkg(root.Pkg.PkgPath)+"."+rn.Obj().Name()][calleeName]; ok {
+				return r, true
+			}
+		}
+	}
+	return "", false
 }
 
 func ruleR74(c *Ctx) {
@@ -2885,7 +2892,7 @@ func ruleR74(c *Ctx) {
 				c.Ok(f, call, "error of "+name, what, "the error result is bound to a variable", false)
 				return true
 			}
-			reason, ok := acceptedDrops[root][name]
+			reason, ok := acceptedDrop(f, name)
 			if ok && !strings.HasPrefix(reason, "KNOWN FINDING") {
 				c.Ok(f, call, "dropped error of "+name, what, "accepted: "+reason, true)
 			} else if ok {
